@@ -20,6 +20,8 @@ DECIDED = [
     "R-C11-WIRING (connection): every connection-bound object (worker, queue, job, runner, handle, MessageDependency) created by a connection-bound object receives the creator's connection; R-C11-FILTER (bounce): RabbitMQ bounces (paused / foreign topic) requeue unconditionally and end the delivery",
     "R-C11-WIRING (keys): C07's key-encoding rules reused (queue and topic keep their places in Redis keys); R-C11-FILTER (scan): exhaustive paging",
     "R-C11-WIRING (round 5): the testing plugin's run-on-enqueue decision is controlled by tests on the key's queue AND topic (CFG: the tests of which exactly one branch reaches worker.run()); R-C11-SYNC: the forget rule names the previous queue's set in its emptiness test and its del",
+    "R-C11-SYNC / R-C11-FILTER (round 6): include_router is called only from __init__ / include_router (never replayed at run time); a foreign-topic message goes straight back without a suspension",
+    "R-C11-AWAITED: in the files this property is anchored in, no bare statement calls a coroutine function (the operation would never run)",
 ]
 NOT_DECIDED = ["behaviour of several workers sharing a queue over time (schedules)"]
 ASSUMPTIONS = ["aiormq basic_reject defaults to requeue=True (re-checked from the installed source in the thorough tier)", "validated names contain no ':' (C07-ALPHABET)"]
@@ -28,7 +30,19 @@ ROUTER = "repid.router.Router"
 
 
 def run(ctx: Ctx) -> None:
+    from .shared import every_operation_awaited
+
+    every_operation_awaited(ctx, "R-C11-AWAITED")  # in the files this property is anchored in, no asynchronous operation is created and dropped
     plugin_route(ctx)
+    from .brokers import inmem_consume_rules
+
+    with ctx.as_rule("R-C11-FILTER"):
+        inmem_consume_rules(ctx, rule_t="R-C11-FILTER", rule_a="R-C11-FILTER")  # a foreign-topic message goes straight back: no suspension while it is in no queue (its own worker would never see it)
+    from .shared import who_may_call
+
+    who_may_call(ctx, "R-C11-SYNC", "include_router", lambda fn, call: fn.name in ("__init__", "include_router"),
+                 "routers are merged when the user says so; replaying an earlier include later (at run time) undoes the registrations made since - the last registration of a name no longer wins, "
+                 "jobs run under the replaced actor and queue", prefixes=("repid.worker.", "repid.router.", "repid.main.", "repid._runner."), floor=1)
     from .C07 import alphabet
 
     with ctx.as_rule("R-C11-WIRING"):
@@ -188,6 +202,8 @@ def filters(ctx: Ctx, rule="R-C11-FILTER") -> None:
         if not (isinstance(e, ast.BoolOp) and isinstance(e.op, ast.Or) and len(e.values) == 2):
             return False
         a, b = e.values
+        if isinstance(a, ast.Name):  # `accept_any = not prefixes`, hoisted out of the loop (the prefixes parameter is never re-bound)
+            a = C.inline_locals(f, a) or a
         no_filter = (isinstance(a, ast.UnaryOp) and isinstance(a.op, ast.Not) and dotted(a.operand) == pfx) or \
             (isinstance(a, ast.Compare) and isinstance(a.ops[0], ast.Eq) and unparse(a.left) == f"len({pfx})" and C.is_const(a.comparators[0], 0))
         return no_filter and isinstance(b, ast.Call) and isinstance(b.func, ast.Attribute) \
